@@ -175,7 +175,7 @@ def run_workers(work, binary, prop, tier, seed0, total_runs, budget_s, extra_arg
     return outs
 
 
-def run_tape(work, binary, prop, tier, tape_obj, tag, extra_args=None, env_extra=None):
+def run_tape(work, binary, prop, tier, tape_obj, tag, extra_args=None, env_extra=None, timeout=120):
     """One run from a tape file in a fresh process. Returns the outcome."""
     tf = work.path("tape-%s.json" % tag)
     json.dump(tape_obj, open(tf, "w"))
@@ -187,7 +187,7 @@ def run_tape(work, binary, prop, tier, tape_obj, tag, extra_args=None, env_extra
     if extra_args:
         cmd += ["-args", extra_args]
     try:
-        p = subprocess.run(cmd, env=env, stdout=subprocess.PIPE, stderr=subprocess.PIPE, timeout=300)
+        p = subprocess.run(cmd, env=env, stdout=subprocess.PIPE, stderr=subprocess.PIPE, timeout=timeout)
     except subprocess.TimeoutExpired:
         return None
     if p.returncode not in (0, 3):
@@ -212,7 +212,7 @@ def has(o, rule, sig):
     return o is not None and any(v["rule"] == rule and v["signature"] == sig for v in o.get("violations", []))
 
 
-def minimise(work, binary, prop, tier, outcome, rule, sig, extra_args=None, env_extra=None, max_runs=600, max_s=90):
+def minimise(work, binary, prop, tier, outcome, rule, sig, extra_args=None, env_extra=None, max_runs=400, max_s=40):
     """Shrinks the tape's value list while the same (rule, signature) fails."""
     vals = [d["v"] for d in outcome["tape"]]
     t0 = time.time()
@@ -227,7 +227,7 @@ def minimise(work, binary, prop, tier, outcome, rule, sig, extra_args=None, env_
 
         def f(c):
             ctr[0] += 1
-            return run_tape(work, binary, prop, tier, {"seed": outcome["seed"], "values": c}, "m%d-%d" % (os.getpid(), ctr[0] * 1000 + (hash(tuple(c)) % 997)), extra_args, env_extra)
+            return run_tape(work, binary, prop, tier, {"seed": outcome["seed"], "values": c}, "m%d-%d" % (os.getpid(), ctr[0] * 1000 + (hash(tuple(c)) % 997)), extra_args, env_extra, timeout=20)
         with ThreadPoolExecutor(max_workers=NCPU) as ex:
             res = list(ex.map(f, cands))
         for i, o in enumerate(res):
@@ -349,7 +349,7 @@ def triage(work, binary, prop, tier, outcomes, extra_args=None, env_extra=None, 
             raise Trouble("harness failure: %s" % items[0][1]["detail"][:3000])
         o, v = min(items, key=lambda it: len(it[0].get("tape") or []))
         mo, mruns = o, 0
-        if do_minimise and o.get("tape"):
+        if do_minimise and o.get("tape") and n_new < 4:
             log("minimising %s/%s from %d draws ..." % (rule, sig, len(o["tape"])))
             mo, mruns = minimise(work, binary, prop, tier, o, rule, sig, extra_args, env_extra)
         # verify in a fresh process, strictly
@@ -390,6 +390,7 @@ def triage(work, binary, prop, tier, outcomes, extra_args=None, env_extra=None, 
 def summarise(outcomes):
     feats = collections.Counter()
     distinct = set()
+    keyed = set()
     sched = set()
     steps = 0
     sim_s = 0.0
@@ -399,12 +400,17 @@ def summarise(outcomes):
             feats[k] += v
         if o.get("nontrivial") and o.get("distinct"):
             distinct.add(o["distinct"])
+        for k in ((o.get("extra") or {}).get("distinct_keys") or "").split("\n"):
+            if k:
+                keyed.add(k)
         if o.get("sched"):
             sched.add(o["sched"])
         steps += o.get("steps", 0)
         sim_s += o.get("sim_s", 0.0)
         if o.get("sample") is not None and len(samples) < 3:
             samples.append({"seed": o["seed"], "scenario": o["sample"]})
+    if keyed:
+        distinct = keyed  # the engine named its own equivalence classes
     return feats, distinct, sched, steps, sim_s, samples
 
 
@@ -429,6 +435,33 @@ PROPS = {
                              "well-formedness by construction follows the core grammar of the RFC each format names; only instances inside that core are generated",
                              "scheduling points are the rewritten sync operations and one yield before each call; data races between points are left to the race detector, "
                              "which sees only the program's own happens-before edges (gates are raw syscalls)"]),
+    "C15": dict(engine="rt", pkg="./engines/rt", race=True, quick_runs=4000, thorough_runs=400000, quick_budget=120, thorough_budget=2400,
+                level="exploration",
+                rule="one run = 12 (quick) / 40 (thorough) encoder<->decoder exchanges over SimNet (1-byte..whole chunking, chunked/length framing, header-case noise); "
+                     "response direction: Accept value from a grammar (absent, exact, parameters, q-values, lists, wildcards, +suffix, mixed case, unsupported, garbage, empty) x designed "
+                     "Content-Type (absent, exact, vendor+suffix, parameters, unknown, unparsable) x optional pre-set header x value kind (struct, string, *string, []byte); request direction: "
+                     "announced media type (absent, exact, parameters, unsupported, garbage) with the body encoded in that format; one run in three injects cut_response/cut_request; "
+                     "distinct = distinct (direction, accept class, designed class, pre-set, value kind) tuples; every tuple is non-trivial",
+                assumptions=["encoding/json, encoding/xml and encoding/gob are trusted to round-trip the generated values (only valid UTF-8 / XML characters are generated)",
+                             "a pre-set Content-Type that goes out untouched is the handler's header, not one the encoder set, and is not judged",
+                             "when Encode itself returns an error (e.g. a struct as text/plain) nothing is promised"]),
+    "C16": dict(engine="rt", pkg="./engines/rt", race=True, quick_runs=3000, thorough_runs=300000, quick_budget=120, thorough_budget=2400,
+                level="exploration",
+                rule="one run = one muxer: 1-6 patterns (literals, {name}, trailing {*name}, 4 methods), a registration history interleaving Use and Handle, middlewares that call "
+                     "ResolvePattern/Vars before and/or after next; 12 (quick) / 40 (thorough) requests built by substituting url.PathEscape'd values (Unicode, '/', '%', %XX look-alikes, '+', "
+                     "space, reserved characters, empty catch-all) or matching no pattern (with Accept variants), sent through SimNet's wire form; reference router on the escaped path; "
+                     "distinct = digest of (request, handler reached, Vars) sequence per run",
+                assumptions=["when several registered patterns match a request, reaching any of them is accepted", "405 responses (path matches, method does not) are outside the property",
+                             "chi refuses Use after the first Handle by panicking; that refusal is counted, not judged"]),
+    "C19": dict(engine="rt", pkg="./engines/rt", race=True, quick_runs=4000, thorough_runs=400000, quick_budget=150, thorough_budget=2400,
+                level="exploration",
+                rule="one run = one of: (a) 1-3 call chains of depth 1-4 over 1-4 shared nodes (RequestID -> Trace -> handler -> traced client -> next node), HTTP over SimNet or gRPC "
+                     "unary/stream interceptors with a metadata hop, option combinations drawn per node (trust, custom header, limit 0..64, sampling 0/100/other/adaptive, discard pattern, "
+                     "custom ID functions), inbound ids drawn (absent, empty, long, multi-byte), chains interleaved by the gated scheduler, optional HTTP/gRPC parity replay of the same inputs; "
+                     "(b) 10 ResponseCapture cases (implicit/explicit status, chunks, second WriteHeader) under writer_error@k; (c) fixed 0/100/other or adaptive sampler called by 1-4 tasks "
+                     "over simulated time with clock steps backwards and jumps; distinct = digest of recorded ids per hop + schedule hash",
+                assumptions=["'truncated to the limit' is accepted in bytes or in characters", "fresh = encoded from entropy handed out by SimRand to the same task while that request was in its middlewares, or produced by that node's custom ID function",
+                             "adaptive sampling and percentages strictly between 0 and 100 are not constrained by the property and only exercised"]),
 }
 
 
